@@ -573,6 +573,39 @@ def rule_declaration_lookup(ctx):
                       "%s no longer looks names up through %s::get (callers: %s)" % (w, which, sorted(callers)), None,
                       detail={"lookup": which + "::get", "caller": w})
     ctx.floor(rule, "call expressions inspected", n, 5000)
+    # .. and a name denotes at most one arm: the declaration judgments reject a repeated name
+    fn = next((p for p in facts.bodies() if p.endswith("bitter::syntax::TermId> as zydeco_statics::check::Tyck<'a>>::tyck_inner_k")), None)
+    h = facts.hir(fn) if fn else None
+    if h is None:
+        ctx.anchor_lost(rule, "term judgment not found")
+        return
+    ms = [m for m in H.walk(h["body"]) if H.kind(m) == "Match" and not m.get("src") and "bitter::syntax::Term<" in (m.get("scrut_ty") or "")]
+    big = max(ms, key=lambda m: len(m["arms"]))
+    for a in big["arms"]:
+        v = A.pat_shape(a["pat"]).split("(")[0]
+        if v not in ("Data", "CoData"):
+            continue
+        ok = False
+        for lp in H.walk(a["body"]):
+            if not (H.kind(lp) == "Match" and H.is_for(lp)):
+                continue
+            _, _, body = H.for_parts(lp)
+            if body is None:
+                continue
+            accs = set((H.path_local(c["recv"]) or [None])[0] for c in H.walk(body)
+                       if H.kind(c) == "MethodCall" and c["name"] in ("push_back", "push", "insert"))
+            for cond in H.walk(body):
+                if H.kind(cond) != "If":
+                    continue
+                reads_acc = any(H.kind(u) == "Path" and (H.path_local(u) or [None])[0] in accs for u in H.walk(cond["c"]))
+                errs = any(c.endswith("::err_k") for _, c in H.calls(cond["t"]))
+                if reads_acc and errs:
+                    ok = True
+        ctx.check(ok, rule, "%s:unique-names" % v, "the %s declaration judgment does not reject a repeated %s name: every consumer looks "
+                  "a name up and takes the first hit, so `data | +A : Unit | +A : Unit end` is accepted as equal to `data | +A : Unit | "
+                  "+B : Unit end` and a value of the second constructor reaches a match that has no arm for it"
+                  % (v.lower(), "constructor" if v == "Data" else "destructor"), [facts.bodies()[fn]["loc"][0], a["ln"]],
+                  detail={"former": v, "check": "error when the name is already among the accumulated arms"})
 
 
 # every way the interpreter (eval.rs, link.rs) can stop with a panic, and the checker-side guarantee that excludes it.
